@@ -359,4 +359,23 @@ def directed_cases():
         calls.append((f.name, [({n: vals[t] for t, n in f.params}, {})]))
     for order in (ov + ov2, list(reversed(ov + ov2)), ov2 + ov):
         out.append(("overloads", Module(funcs=list(order) + mains), calls))
+    # overloads whose parameter counts differ by one, called so that the *other* arity would fit the supplied (or the
+    # leading) arguments better: the argument count must decide first
+    s1 = Func("sc", [(FLOAT, "x")], INT, Block([Return(I(301))]), False)
+    s2 = Func("sc", [(INT, "x"), (INT, "y")], INT, Block([Return(I(302))]), False)
+    t1 = Func("tc", [(INT, "x")], INT, Block([Return(I(401))]), False)
+    t2 = Func("tc", [(FLOAT, "x"), (FLOAT, "y")], INT, Block([Return(I(402))]), False)
+    u0 = Func("uc", [], INT, Block([Return(I(500))]), False)
+    u1 = Func("uc", [(F2, "x")], INT, Block([Return(I(501))]), False)
+    am = [Func("a0", [(INT, "v")], INT, Block([Return(Call("sc", [V("v", INT)], INT, s1))]), True),
+          Func("a1", [(INT, "v"), (INT, "w")], INT, Block([Return(Call("sc", [V("v", INT), V("w", INT)], INT, s2))]), True),
+          Func("a2", [(INT, "v"), (INT, "w")], INT, Block([Return(Call("tc", [V("v", INT), V("w", INT)], INT, t2))]), True),
+          Func("a3", [(INT, "v")], INT, Block([Return(Call("tc", [V("v", INT)], INT, t1))]), True),
+          Func("a4", [(F2, "v")], INT, Block([Return(B("+", Call("uc", [], INT, u0), Call("uc", [V("v", F2)], INT, u1)))]), True)]
+    # one module per overloaded name and call, so that a rejection of one call cannot hide what happens to another
+    for fam, ovs, callers in (("sc", [s1, s2], am[0:2]), ("tc", [t1, t2], am[2:4]), ("uc", [u0, u1], am[4:5])):
+        for caller in callers:
+            for order in (ovs, list(reversed(ovs))):
+                out.append(("overloads-arity:%s:%s" % (fam, caller.name), Module(funcs=list(order) + [caller]),
+                            [(caller.name, [({n: vals[t] for t, n in caller.params}, {})])]))
     return out
